@@ -26,6 +26,12 @@ impl SMap {
         ensures final(self)@ == old(self)@.insert(key_of(k), v)
     { unimplemented!() }
 
+    #[verifier::external_body]
+    pub fn remove(&mut self, k: &Vec<String>) -> (old_v: Option<Substitute>) ensures final(self)@ == old(self)@.remove(key_of(*k)) { unimplemented!() }
+
+    #[verifier::external_body]
+    pub fn contains_key(&self, k: &Vec<String>) -> (r: bool) ensures r == self@.contains_key(key_of(*k)) { unimplemented!() }
+
     /// `HashMap::entry(k).or_insert(v)`: inserts only if the key is absent
     #[verifier::external_body]
     pub fn entry_or_insert(&mut self, k: Vec<String>, v: Substitute)
@@ -36,3 +42,11 @@ impl SMap {
 /// OPAQUE: `TypeSubstitutes::parse_path_substitution` (syn surgery: absolute-path and generic-form checks, parameter
 /// mapping).  Its result is named by an uninterpreted spec function; nothing else is known about it.
 pub uninterp spec fn parsed(source: SynPath, target: SynPath) -> Result<(Vec<String>, Substitute), TypeSubstitutionError>;
+
+/// OPAQUE: `path_segments(&syn::Path)` (the identifiers of the path as strings); ASSUMED consistent with the key
+/// `parse_path_substitution` computes for the same source path.
+pub uninterp spec fn segments_of(p: SynPath) -> Vec<String>;
+#[verifier::external_body]
+pub fn path_segments(p: &SynPath) -> (r: Vec<String>)
+    ensures r == segments_of(*p), forall|t: SynPath| parsed(*p, t) is Ok ==> key_of(#[trigger] parsed(*p, t)->Ok_0.0) == key_of(r)
+{ unimplemented!() }
